@@ -751,6 +751,10 @@ func (g *Gen) genValues(faulty bool) {
 	if faulty && g.rng.chance(30) {
 		e = g.entRef(true)
 	}
+	if faulty && g.rng.chance(20) {
+		g.do(fmt.Sprintf("%s %s %d", pick(g.rng, []string{"hasu", "relu", "getu"}), e, c))
+		return
+	}
 	switch g.rng.intn(5) {
 	case 0:
 		g.do(fmt.Sprintf("set %s %d %d", e, c, g.val()))
@@ -1356,6 +1360,10 @@ func (g *Gen) genDumpLoad(faulty bool) {
 		for _, e := range g.r.dumps[kk].Entities {
 			if !e.IsZero() && g.rng.chance(50) {
 				g.do(fmt.Sprintf("alive E%d:%d", e.ID(), e.Generation()))
+			}
+			// the unchecked accessors on every dumped slot: a slot that was free in the dump holds no table
+			if g.rng.chance(35) && len(g.r.comps) > 0 {
+				g.do(fmt.Sprintf("%s E%d:%d %d", pick(g.rng, []string{"hasu", "hasu", "relu", "getu"}), e.ID(), e.Generation(), g.rng.intn(len(g.r.comps))))
 			}
 		}
 		g.do("qall A 0")
